@@ -34,6 +34,8 @@ inductive ZLoc where
   | eAlloc (v : Nat)
   /-- enqueue, phase 2: slot `id` written, `q.publish_movable(id)` in progress -/
   | ePub (v id : Nat)
+  /-- enqueue, phase 3: `id` is published; `q`'s `len_after_publishing` (the length `publish_movable` reports) -/
+  | ePubLen (v : Nat)
   /-- dequeue, phase 1: `q.consume_movable()` in progress -/
   | dCons
   /-- dequeue: `q` handed out `id`; at `am.len` (`consume` reports the length after dequeueing), then the payload is read -/
@@ -44,6 +46,8 @@ inductive ZLoc where
   | dFreeHook (id v : Nat)
   /-- dequeue, last phase: `free.publish_movable(id)` in progress -/
   | dFree (id v : Nat)
+  /-- dequeue: `id` is back in the free list; the free list's `len_after_publishing` -/
+  | dFreeLen (v : Nat)
   /-- `available_elements_count` of the queue ring -/
   | lLen
   deriving DecidableEq, Repr
@@ -85,9 +89,15 @@ def step (s : St) (t : Nat) : St :=
   | .ePub v id =>
       let q' := Ring.step s.q t
       match q'.thr t with
-      | .done (.sent len) => setThr { s with q := Ring.apply q' (.ack t), enqLog := s.enqLog ++ [v] } t (.done (.enq len))
+      -- the publication CAS succeeded
+      | .pLen _ => setThr { s with q := q', enqLog := s.enqLog ++ [v] } t (.ePubLen v)
       -- `publish_leaked_id` answering `None` is the `panic!("BUG…")` / `unwrap` branch of the callers
       | .done .full => setThr { s with q := Ring.apply q' (.ack t) } t (.done .full)
+      | _ => { s with q := q' }
+  | .ePubLen v =>
+      let q' := Ring.step s.q t
+      match q'.thr t with
+      | .done (.sent len) => setThr { s with q := Ring.apply q' (.ack t) } t (.done (.enq len))
       | _ => { s with q := q' }
   | .dCons =>
       let q' := Ring.step s.q t
@@ -101,7 +111,13 @@ def step (s : St) (t : Nat) : St :=
   | .dFree id v =>
       let f := Ring.step s.free t
       match f.thr t with
-      | .done (.sent _) | .done .full => setThr { s with free := Ring.apply f (.ack t) } t (.done (.deq v))
+      | .pLen _ => setThr { s with free := f } t (.dFreeLen v)
+      | .done .full => setThr { s with free := Ring.apply f (.ack t) } t (.done (.deq v))
+      | _ => { s with free := f }
+  | .dFreeLen v =>
+      let f := Ring.step s.free t
+      match f.thr t with
+      | .done (.sent _) => setThr { s with free := Ring.apply f (.ack t) } t (.done (.deq v))
       | _ => { s with free := f }
   | .lLen => setThr s t (.done (.len (s.q.tail - s.q.head)))
 
@@ -130,8 +146,8 @@ def abs (s : St) : List Nat := (Ring.abs s.q).map s.pool
 
 def tagOf (s : St) (t : Nat) : Option (String × Nat) :=
   match s.thr t with
-  | .eAlloc _ | .dFree _ _ => Ring.tagOf (s.free.thr t)
-  | .ePub _ _ | .dCons => Ring.tagOf (s.q.thr t)
+  | .eAlloc _ | .dFree _ _ | .dFreeLen _ => Ring.tagOf (s.free.thr t)
+  | .ePub _ _ | .ePubLen _ | .dCons => Ring.tagOf (s.q.thr t)
   | .dLen _ => some ("am.len", 0)
   | .dDrop id _ => some ("pa.dealloc.drop", id)
   | .dFreeHook id _ => some ("pa.dealloc.free", id)
